@@ -141,6 +141,10 @@ var c12SigKinds = []string{"valid", "valid", "valid", "valid", "valid", "other-s
 func (s *c12Scn) makeItem(sl *c12Slot) (*b44Item, string) {
 	r := s.r
 	it := &b44Item{salt: sl.salt}
+	if len(sl.salt) == 0 && r.rng.Intn(2) == 0 {
+		it.emptySaltKey = true // an empty salt that is spelled out: the same item as one without salt
+		r.hist("item/empty-salt-spelled-out")
+	}
 	// value
 	shape := r.rng.Intn(6)
 	switch r.rng.Intn(10) {
@@ -181,6 +185,13 @@ func (s *c12Scn) makeItem(sl *c12Slot) (*b44Item, string) {
 	case "other-salt":
 		other := append([]byte{}, it.salt...)
 		switch {
+		case len(other) == 0 && r.rng.Intn(2) == 0:
+			// signed over a buffer that spells the empty salt out (`4:salt0:3:seq...`): not a BEP 44 signature
+			msg := append([]byte("4:salt0:"), specSignBuf(nil, it.seq, bv)...)
+			copy(it.sig[:], ed25519.Sign(key.priv, msg))
+			it.sigKey = append([]byte{}, key.priv.Public().(ed25519.PublicKey)...)
+			it.sigMsg = msg
+			return it, kind
 		case len(other) == 0:
 			other = []byte{byte(r.rng.Intn(256))}
 		case r.rng.Intn(3) == 0:
